@@ -699,7 +699,12 @@ func main() {
 	if *nocache {
 		useCache = false
 	}
-	workDir = filepath.Join(*verif, ".work")
+	workDir = filepath.Join(*verif, ".work", fmt.Sprint(os.Getpid())) // per process: concurrent checks must not share solver input files
+	cleanup := func() {
+		if !*dump {
+			_ = os.RemoveAll(workDir)
+		}
+	}
 	cacheDir = filepath.Join(*verif, ".cache")
 	if *timeout == 0 {
 		*timeout = 90
@@ -768,11 +773,14 @@ func main() {
 		}
 		_ = dump
 		fmt.Printf("load %.1fs total %.1fs\n", loadSecs, time.Since(t0).Seconds())
+		cleanup()
 		if bad > 0 {
 			os.Exit(1)
 		}
 	case "check":
-		os.Exit(P.checkProperty(*prop, *tier, *timeout, loadSecs, t0))
+		rc := P.checkProperty(*prop, *tier, *timeout, loadSecs, t0)
+		cleanup()
+		os.Exit(rc)
 	default:
 		fmt.Fprintln(os.Stderr, "unknown command", cmd)
 		os.Exit(2)
